@@ -235,10 +235,13 @@ package alephium
 //@   loop [for]:
 //@     invariant [pending] wfPending(pendingEvents)
 //@     invariant [watcher] w != nil && w.blockPollerEnabled != nil
+//@     invariant [height-poller-on-while-pending] forall k in dom(pendingEvents) :: atomicBool(w.blockPollerEnabled)
 //@   loop [range events]:
 //@     invariant [pending] wfPending(pendingEvents)
+//@     invariant [height-poller-on-while-pending] (len(events) != 0 ==> atomicBool(w.blockPollerEnabled)) && (forall k in dom(pendingEvents) :: atomicBool(w.blockPollerEnabled))
 //@   loop [range pendingEvents]:
 //@     invariant [pending] wfPending(pendingEvents)
+//@     invariant [height-poller-on-while-pending] forall k in dom(pendingEvents) :: atomicBool(w.blockPollerEnabled)
 //@   loop [range blockEvents.events]:
 //@     invariant [remain] forall k in 0..len(remain) :: wfEvent(remain[k])
 //@     iter-ensures [forwarded-or-kept-never-both] (len(remain) == old(len(remain)) + 1 && len(confirmedEvents) == old(len(confirmedEvents))) || (len(remain) == old(len(remain)) && len(confirmedEvents) <= old(len(confirmedEvents)) + 1)
